@@ -203,7 +203,12 @@ class Interp:
             return self.ctx.branch(sym.truth(v))
         if isinstance(v, SArr):
             raise OutsideSubset("truth value of symbolic array")
-        return bool(v)
+        try:
+            return bool(v)
+        except CONTROL:
+            raise
+        except Exception as exc:            # e.g. the ambiguous truth value of an ndarray: an exception of the program
+            raise PyRaise(exc)
 
     # ------------------------------------------------------------- functions
     def run_function(self, fn, args, kwargs, label=None):
